@@ -50,10 +50,13 @@ class SessGen:
         elif x < 0.25: w = r.choice(self.live); self.ops.append(r.choice(['id:%d:%d' % (w, r.randrange(100)), 'nm:%d:%s' % (w, (b'n%d' % r.randrange(9)).hex())])); self.bump('rename')
         elif x < 0.45: self.consume()
         elif x < 0.50 and self.rotate: self.ops.append('rc'); self.bump('rotate')
-        elif x < 0.55 and self.use_log: self.ops.append('ms:%d' % r.choice(SEVS + [0, 32768, 129])); self.bump('set_min_sev')
+        elif x < 0.55 and self.use_log: self.ops.append('%s:%d' % (r.choice(['ms', 'ms', 'mw']), r.choice(SEVS + [0, 32768, 129]))); self.bump('set_min_sev')
         elif self.use_log and x < 0.8:
             w = r.choice(self.live); site = r.randrange(8)
-            self.ops.append('lg:%d:%d:%d:%d:%d:%s' % (w, 1000, site, [32, 64, 128, 256, 512, 1024, 128, 32][site], r.randrange(1 << 20), u(4, r.randrange(1 << 31)).hex())); self.bump('log_stmt')
+            if r.random() < 0.2:      # a statement used as the unbraced then-branch of an if/else
+                self.ops.append('lx:%d:%d:%d:%d:%s' % (w, 1000, r.randrange(2), r.randrange(1 << 20), u(4, r.randrange(1 << 31)).hex())); self.bump('log_stmt_if_else')
+            else:
+                self.ops.append('lg:%d:%d:%d:%d:%d:%s' % (w, 1000, site, [32, 64, 128, 256, 512, 1024, 128, 32][site], r.randrange(1 << 20), u(4, r.randrange(1 << 31)).hex())); self.bump('log_stmt')
         else: self.ops.append(self.act())
     def history(self, n):
         for _ in range(n): self.step()
